@@ -91,7 +91,8 @@ def run(ctx):
         for k in range(4):
             try:
                 s, order, tags, marks = spell(m, rng, mix_labels=rng.random() < 0.2,
-                                               digits_after_branch=rng.choice([0, 0, 0.5, 1.0]))
+                                               digits_after_branch=rng.choice([0, 0, 0.5, 1.0]),
+                                               spanning=rng.choice(["dfs", "dfs", "random"]))
             except ValueError:
                 break
             st, mi, mo, x = roundtrip(ctx, sf, s, table, True, "G5-stereo")
